@@ -286,4 +286,3 @@ func vxChance(rt *rapid.T, label string, percent int) bool {
 	}
 	return v*100 >= (100-percent)*64
 }
-
